@@ -32,6 +32,12 @@ package cmd
 //@   ensures without_overrides_nothing_fails: old(len(configArgs)) == 0 ==> result == nil
 //@   requires manifest_graph_is_acyclic: forall k in 0..len(packageInfo.Versions) :: packageInfo.Versions[k].Package != packageInfo
 
+// ---- C08 "including the scaffold that `yardl init <name>` writes for any name it accepts": a name whose namespace
+// (the PascalCased name) is not a namespace `yardl generate` accepts is refused before anything is created.
+//@ func initImpl
+//@   property C08
+//@   ensures nothing_is_written_for_an_invalid_namespace: !old(packaging.IsValidNamespaceName(formatting.ToPascalCase(namespace))) ==> result != nil && !called("os.MkdirAll") && !called("os.OpenFile")
+
 // ---- C09 / C11: errors of every nested parse / validate / evolution step propagate -----------------------
 //@ observe-args cpp/common.TypeIdentifierName
 //@ func validatePackage
